@@ -27,6 +27,9 @@ SPF = "signac_statepoint.json"
 SPT = "signac_statepoint.json~"
 DOCF = "signac_job_document.json"
 WSN = "workspace"
+DOTSIG = ".signac"
+CACHEFN = "statepoint_cache.json.gz"
+JSON_NAMES = (SPF, SPT, DOCF)
 _TMP = re.compile(r"^\._[0-9a-f]{8}-[0-9a-f]{4}-[0-9a-f]{4}-[0-9a-f]{4}-[0-9a-f]{12}_")
 _HEX32 = re.compile(r"^[0-9a-f]{32}$")
 
@@ -49,6 +52,10 @@ class Lit:
             return "DOCF"
         if text == WSN:
             return "WS"
+        if text == DOTSIG:
+            return "DOTSIG"
+        if text == CACHEFN:
+            return "CACHEFN"
         if _HEX32.match(text):
             if text not in self.ids:
                 self.ids[text] = f"i{len(self.ids)}"
@@ -157,6 +164,12 @@ def coq_op(L, op):
         return "OTree"
     if k == "Quiet":
         return "OQuiet"
+    if k in ("Remove", "Clear", "Reset", "UpdateCache", "Check"):
+        return f"(O{k} {n(op[1])})"
+    if k == "DocSet":
+        return f"(ODocSet {n(op[1])} {L.s(op[2])} {L.json(untyped(op[3]))})"
+    if k == "Snap":
+        return "OSnap"
     raise ValueError(op)
 
 
@@ -181,15 +194,38 @@ def coq_oval(L, v):
     if k == "same":
         return "VTreeSame"
     if k == "tree":
-        items = []
-        for comps, kind, hexdata in v[1]:
-            if kind == "dir":
-                items.append(f"({L.path(comps)}, Dir)")
-            else:
-                data = bytes.fromhex(hexdata)
-                items.append(f"({L.path(comps)}, File {coq_content(L, data, comps[-1] in (SPF, SPT))})")
-        return f"(VTree {coq_list(items, '(path * node)')})"
+        return f"(VTree {coq_tree(L, v[1])})"
+    if k == "optnum":
+        return "(VOptNum None)" if v[1] is None else f"(VOptNum (Some {v[1]}%N))"
+    if k == "snapsame":
+        return "VSnapSame"
+    if k == "snap":
+        roots = []
+        for root, jobs, ok in v[2]:
+            js = []
+            for j in jobs:
+                sp = "None" if j["sp"] is None else f"(Some {L.json(untyped(j['sp']))})"
+                doc = "None" if j["doc"] is None else f"(Some {L.json(untyped(j['doc']))})"
+                files = coq_list([f"({L.path(rel)}, {L.bytes_(bytes.fromhex(h))})" for rel, h in j["files"]],
+                                 "(path * list N)")
+                js.append(f"(mkJV {L.s(j['id'])} {sp} {doc} {files})")
+            roots.append(f"({L.path([root])}, {coq_list(js, 'jview')}, {coq_bool(ok)})")
+        return f"(VSnap {coq_tree(L, v[1])} {coq_list(roots, '(path * list jview * bool)')})"
     raise ValueError(v)
+
+
+def coq_tree(L, entries):
+    items = []
+    for comps, kind, hexdata in entries:
+        if kind == "dir":
+            items.append(f"({L.path(comps)}, Dir)")
+        elif kind == "cache":
+            # the persistent cache: gzip bytes are not compared, the node carries the decoded mapping
+            items.append(f"({L.path(comps)}, File (mkContent (@nil N) (Some {L.json(untyped(hexdata))})))")
+        else:
+            data = bytes.fromhex(hexdata)
+            items.append(f"({L.path(comps)}, File {coq_content(L, data, comps[-1] in JSON_NAMES)})")
+    return coq_list(items, "(path * node)")
 
 
 class World:
@@ -205,6 +241,8 @@ class World:
         self.args = {}
         self.inited = set()
         self.prev_tree = None
+        self.prev_snap = None
+        self.roots = []
         self.prev_sig = self.signature()
         self.same_trees = same_trees
 
@@ -223,8 +261,63 @@ class World:
                 for f in sorted(filenames):
                     with open(os.path.join(dirpath, f), "rb") as fh:
                         out.append((rel + [_TMP.sub("._TMP_", f)], "file", fh.read().hex()))
-        out.sort()
+            cf = os.path.join(self.root, proj, DOTSIG, CACHEFN)
+            if os.path.isfile(cf):
+                import gzip
+                with gzip.open(cf, "rb") as fh:
+                    out.append(([proj, DOTSIG, CACHEFN], "cache", typed(json.loads(fh.read().decode()))))
+        out.sort(key=lambda e: (e[0], e[1]))
         return out
+
+    def strays(self):
+        """Anything in the project directories that is neither the workspace, the config nor the cache file."""
+        bad = []
+        for proj in sorted(os.listdir(self.root)):
+            base = os.path.join(self.root, proj)
+            for dirpath, dirnames, filenames in os.walk(base):
+                rel = os.path.relpath(dirpath, base)
+                if rel == ".":
+                    dirnames[:] = [d for d in dirnames if d != WSN]
+                    extra = [d for d in dirnames if d != DOTSIG] + list(filenames)
+                elif rel == DOTSIG:
+                    extra = list(dirnames) + [f for f in filenames if f not in ("config", CACHEFN)]
+                else:
+                    extra = list(dirnames) + list(filenames)
+                bad += [os.path.join(proj, rel, x) for x in extra]
+        return sorted(bad)
+
+    def fresh_view(self, proj):
+        """ids, statepoint(), document(), recursive file listing through a brand-new Project, and check()."""
+        import signac
+        from signac.errors import JobsCorruptedError
+        p = signac.Project(os.path.join(self.root, proj))
+        jobs = []
+        for job in p:
+            try:
+                sp = typed(to_plain(job.statepoint()))
+            except Exception:  # noqa: BLE001
+                sp = None
+            try:
+                doc = typed(to_plain(job.document()))
+            except Exception:  # noqa: BLE001
+                doc = None
+            files = []
+            for dirpath, dirnames, filenames in os.walk(job.path):
+                dirnames.sort()
+                rel = os.path.relpath(dirpath, job.path)
+                for f in sorted(filenames):
+                    comps = ([] if rel == "." else rel.split(os.sep)) + [_TMP.sub("._TMP_", f)]
+                    if comps in ([SPF], [DOCF]):
+                        continue
+                    with open(os.path.join(dirpath, f), "rb") as fh:
+                        files.append([comps, fh.read().hex()])
+            jobs.append({"id": job.id, "sp": sp, "doc": doc, "files": files})
+        try:
+            p.check()
+            ok = True
+        except JobsCorruptedError:
+            ok = False
+        return [proj, sorted(jobs, key=lambda j: j["id"]), ok]
 
     def signature(self):
         sig = []
@@ -258,6 +351,8 @@ class World:
                 else:
                     p = signac.Project(path)
                 self.sessions.append(p)
+                if op[1] not in self.roots:
+                    self.roots.append(op[1])
                 return ["unit"]
             if k == "OpenSp":
                 arg = untyped(op[2])
@@ -365,6 +460,32 @@ class World:
                     return ["same"]
                 self.prev_tree = t
                 return ["tree", t]
+            if k == "Remove":
+                H[op[1]].remove()
+                return ["unit"]
+            if k == "Clear":
+                H[op[1]].clear()
+                return ["unit"]
+            if k == "Reset":
+                H[op[1]].reset()
+                return ["unit"]
+            if k == "DocSet":
+                H[op[1]].document[op[2]] = untyped(op[3])
+                return ["unit"]
+            if k == "UpdateCache":
+                return ["optnum", self.sessions[op[1]].update_cache()]
+            if k == "Check":
+                self.sessions[op[1]].check()
+                return ["unit"]
+            if k == "Snap":
+                t = self.tree()
+                views = [self.fresh_view(r) for r in self.roots]
+                snap = [t, views]
+                self.prev_tree = t
+                if self.same_trees and snap == self.prev_snap:
+                    return ["snapsame"]
+                self.prev_snap = snap
+                return ["snap", t, views]
             if k == "Quiet":
                 sig = self.signature()
                 q = self.prev_sig is not None and sig == self.prev_sig
